@@ -14,10 +14,12 @@ pub struct PanicInfo {
 impl PanicInfo {
     /// Stable signature: file (repo-relative) + line + first words of message.
     pub fn sig(&self) -> String {
-        let loc = self
-            .location
-            .trim_start_matches("/repo/")
-            .to_string();
+        let mut loc = self.location.trim_start_matches("/repo/").to_string();
+        // generated parser: the build directory name carries a hash and the line shifts
+        if let Some(i) = loc.find("/out/grammar.rs") {
+            let _ = i;
+            loc = "candid_parser/grammar.rs(generated)".to_string();
+        }
         let mut m: String = self.message.chars().take(48).collect();
         // numbers in messages vary with the input; blank them
         m = m
